@@ -182,6 +182,19 @@ def run_block(ctx, b, inv, fname, args, stmts, obs, filename):
     for s in stmts:
         ctx.tick()
         op = s[0]
+        if op == 'qa':
+            # atomic query (C09): executed without preemption; used for paths another task is working on, whose
+            # answer is the same at every instant (the target of a function that always fails is never visible)
+            _, kind, path, cmp = s
+            if ctx.mode == 'real':
+                from . import sched
+                with sched.no_preemption():
+                    a = do_query(ctx, b, kind, path, cmp)
+            else:
+                a = do_query(ctx, b, kind, path, cmp)
+            obs.append([kind, path, a])
+            ctx.record_trace(inv, kind, path, a)
+            continue
         if op == 'q':
             _, kind, path, cmp = s
             a = do_query(ctx, b, kind, path, cmp)
@@ -381,7 +394,7 @@ def bind_program(prog, ap):
         out = []
         for s in stmts:
             s = list(s)
-            if s[0] == 'q':
+            if s[0] in ('q', 'qa'):
                 s[2] = ap(s[2])
             elif s[0] == 'bf':
                 s[1] = ap(s[1])
